@@ -1,5 +1,5 @@
 import PycModel.Parser.Stmt
-import PycModel.Properties.Tables
+import PycModel.Properties.TablesPrec
 import PycModel.Properties.TablesGen
 import PycModel.Properties.C17
 /-!
